@@ -33,7 +33,7 @@ def in_domain(case: dict) -> bool:
 
 def run(tier: str, seed: int, rep: Report, model: Model) -> dict:
     rnd = rng_for("C14", seed)
-    n = depth(tier, 500, 5000)
+    n = depth(tier, 500, 15000)
     rep.rule = ("ordered field lists (optional fields, markers, expressions, plain fields) with values that are arrays of the declared library or "
                 "None for optional fields, conforming or with one / several faults, rendered in the four forms with shuffled keyword order; "
                 "distinct = distinct (fields, values); non-trivial = at least two annotated fields")
